@@ -27,11 +27,13 @@ THEOREMS = [
     'C05_parse_back',
     'C05_lengths_digests',
     'C05_payload_after_header',
+    'C05_header_block_split',
     'C05_revisit_block',
     'C05_fields_single_line',
     'C05_files_are_record_sequences',
     'C05_archive_valid',
     'C05_one_member_per_record',
+    'C05_ids_unique',
     'C05_points_at_warcinfo',
 ]
 TRUSTED = [
@@ -905,14 +907,18 @@ def model_compare(cases, results, default_software, limit=None, per_file=8):
             if cfg['appending'] and cfg['max_size'] and (ri > 0 or c.get('preexisting')):
                 return 1
             return 2
-        items.sort(key=prio)
-        # limit = budget in characters of Coq input (parsing the byte-string literals dominates the cost)
+        # a third of the budget for each boundary class, the rest in generation order
         kept, total = [], 0
-        for it in items:
-            if total + len(it[2]) > limit and kept:
-                continue
-            kept.append(it)
-            total += len(it[2])
+        for cls, share in ((0, limit // 3), (1, limit // 3), (2, limit)):
+            used = 0
+            for it in items:
+                if prio(it) != cls or it in kept:
+                    continue
+                if (used + len(it[2]) > share and used) or total + len(it[2]) > limit:
+                    continue
+                kept.append(it)
+                used += len(it[2])
+                total += len(it[2])
         items = kept
     # balance the files by size
     items.sort(key=lambda it: -len(it[2]))
@@ -980,7 +986,7 @@ def generate(tag, n, force_cdx=False):
     return [gen_case(r, i, force_cdx) for i in range(n)]
 
 
-def correspondence_for(ctx, tag, n_quick, n_thorough, model_limit_quick, force_cdx=False, only=None):
+def correspondence_for(ctx, tag, n_quick, n_thorough, model_limit_quick, force_cdx=False, only=None, model_limit_thorough=12000000):
     n = n_thorough if ctx.thorough else n_quick
     ok, log = common.coq_make(['Model/WarcEval.vo'])        # the evaluation files Require it
     cases = generate(tag, n, force_cdx)
@@ -989,7 +995,7 @@ def correspondence_for(ctx, tag, n_quick, n_thorough, model_limit_quick, force_c
     if only is not None:
         viol = [v for v in viol if only(v)]
     dis, compared, skipped = model_compare(cases, results, default_software,
-                                           None if ctx.thorough else model_limit_quick)
+                                           model_limit_thorough if ctx.thorough else model_limit_quick)
     if not ok:
         dis.append({'coq_error': 'Model/WarcEval.vo does not build: ' + log[-600:]})
     dist = _distribution(cases, stats)
@@ -1011,7 +1017,7 @@ def correspondence_for(ctx, tag, n_quick, n_thorough, model_limit_quick, force_c
 
 
 def correspondence(ctx):
-    return correspondence_for(ctx, 'c05', 260, 6000, 800000, only=lambda v: not is_c07(v))
+    return correspondence_for(ctx, 'c05', 260, 2500, 1000000, only=lambda v: not is_c07(v), model_limit_thorough=12000000)
 
 
 def search(ctx, disagreements):
@@ -1039,9 +1045,13 @@ LEVEL_TEXT = ('Coq theorems (closed under the global context) over the executabl
               '(C05_files_are_record_sequences, C05_archive_valid, C05_one_member_per_record for gzip under the member-splitting hypothesis); every '
               'record has Content-Length = block length, block digest = H(block), payload digest = H(bytes after the offset recorded at '
               'begin_response), revisit blocks are the block cut at that offset (C05_lengths_digests, C05_payload_after_header, C05_revisit_block); '
-              'fields are single lines for clean inputs; record ids are unique when uuid4 is injective and every record names the warcinfo record '
-              'written earlier in the same file.')
+              'an independent line reader splits a block exactly after a header block of LF-terminated lines (C05_header_block_split); '
+              'fields are single lines, names distinct, mandatory fields present for clean inputs (C05_fields_single_line); record ids are unique when uuid4 '
+              'is injective (C05_ids_unique: creation numbers of written and pending records stay pairwise distinct) and every record names a warcinfo '
+              'record written to the same file (C05_points_at_warcinfo).')
 LEVEL_NOTE = ('Trusted: Coq kernel + vm_compute; the hand-written model and this harness; oracles for SHA-1/gzip/uuid4/clock; the client event order. '
-              'That the bytes before begin_response are the header block is carried by the correspondence (ground truth from the generator), not by a theorem. '
+              'That the bytes the HTTP client reports before begin_response are exactly the header block(s) is carried by the correspondence (real client on a '
+              'scripted connection, ground truth from the generator), not by a theorem (it is C04/C08 territory). C05_archive_valid / C05_one_member_per_record '
+              'take the kept earlier content as a serialisation of well-formed records rather than as "parses strictly". '
               'textwrap wrapping of very long warcinfo values and non-ASCII FTP control text are outside the model (checked on the implementation side only).')
 TECHNIQUE = 'Coq proof by induction over the event history of an executable recorder model with trace invariants; vm_compute byte-for-byte correspondence with table-driven oracles'
